@@ -7,8 +7,8 @@ tied to it by the correspondence harness harness/c12.py.
 
 Reading (DESIGN §5/C12): a *decorated program* (`Decorated`) is a list of code lines, each with
 its trailing hint tokens in any tolerated spelling (`+` optional, `…` for `...`, several spaces,
-several hints per line), and of hints alone on a line anywhere between them; `decorate` writes it
-down. What the hints *say* is, label by label, the proper nesting `Bal` of their marks (a closing
+several hints per line, any number of spaces — or none — between the code and the hint comment),
+and of hints alone on a line anywhere between them; `decorate` writes it down. What the hints *say* is, label by label, the proper nesting `Bal` of their marks (a closing
 mark closes the latest still-open opening of that label, whatever its sign), a hint alone on a
 line being an addition opened on the first line and closed on the last one.
 -/
@@ -16,6 +16,7 @@ import Paroxy.Proofs.HintsCore2
 import Paroxy.Proofs.HintsSame
 import Paroxy.Proofs.HintsMalformed
 import Paroxy.Proofs.GlueCount
+import Paroxy.Proofs.HintsNoMarker
 /-
 Character classes. The classes `\w` and white space are fixed on ASCII and on `…`; for every other
 character they are the oracle parameter `O : CharOracle`, universally quantified in every theorem
@@ -43,8 +44,9 @@ def linesOk (O : CharOracle) (d : Decorated) : Bool :=
   (codeLines d).all (okCode O) && (wholeLabels d).all (cleanLabel O) && (looseOk O) d
 
 /-- **C12 (round trip).** For every decorated program `d` — code lines with trailing hints in any
-tolerated spelling (`+` optional, `…`, several spaces, several hints per line), hints alone on a
-line anywhere, **each marker spelled freely** (`#`, spaces, `paroxython` in any case, spaces, `:`,
+tolerated spelling (`+` optional, `…`, several spaces, several hints per line, the hint comment
+separated from the code by any number of spaces or **glued to it**, `pad = 0`, F45), hints alone on
+a line anywhere, **each marker spelled freely** (`#`, spaces, `paroxython` in any case, spaces, `:`,
 spaces or none), **blank lines anywhere**, in particular at both ends of the text and between a
 hint alone on a line and the code — whose lines are hygienic (`linesOk`), which has a code line
 that is not blank, and whose marks are, label by label, properly nested (`Bal`, LIFO):
@@ -195,8 +197,9 @@ theorem C12_balSpans_sound (w : List Ev) (r : List SSpan) (h : balSpans w = some
   · cases h
 
 /-- The manual's example (docs/md/preparing.md, "Multiple lines"), with a single-line deletion and
-addition, `…`, an extra space, a hint alone on a line, two free spellings of the marker and a
-blank line at each end of the text added. -/
+addition, `…`, an extra space, a hint alone on a line, two free spellings of the marker, a
+blank line at each end of the text, and the first hint comment glued to its code (`pad := 0`, the
+shape of the repaired finding F45) added. -/
 def manualExample : List (Line × MarkerStyle) :=
   [ (.code { code := [] }, {}),
     (.code { code := "for am in ifera:".toList, pad := 0,
@@ -204,7 +207,7 @@ def manualExample : List (Line × MarkerStyle) :=
                        ⟨.opn false, "amoeboid_protist".toList, { plus := true }⟩] },
       { sp1 := 2, caps := fun k => k == 0, sp2 := 1, after := 0 }),
     (.isolated 4 "meta/topic/fun".toList, { sp1 := 0 }),
-    (.code { code := "    catch(a + b)".toList, pad := 1,
+    (.code { code := "    catch(a + b)".toList, pad := 2,
              hints := [⟨.one true, "addition_operator".toList, {}⟩,
                        ⟨.one false, "concatenation_operator".toList, { plus := true }⟩] }, {}),
     (.code { code := "    eat()".toList,
@@ -223,7 +226,7 @@ example : noTie (events (normalised manualExample) "loop:for".toList) = true := 
 /- `decorateS manualExample` is the text
 ```
 ⏎
-for am in ifera: #  Paroxython :-loop:for... +amoeboid_protist...
+for am in ifera:#  Paroxython :-loop:for... +amoeboid_protist...
     #paroxython: meta/topic/fun
     catch(a + b)  # paroxython: -addition_operator +concatenation_operator
     eat() # paroxython: ...loop:for …amoeboid_protist
@@ -234,6 +237,25 @@ example : (getProgram asciiOracle) (decorateS manualExample) = .ok
      [("concatenation_operator".toList, [(2, 2)]), ("amoeboid_protist".toList, [(1, 3)]),
       ("meta/topic/fun".toList, [(1, 3)])],
      [("addition_operator".toList, [(2, 2)]), ("loop:for".toList, [(1, 3)])]⟩ := by rfl
+
+/-- **C12 (stored source, all texts).** Whatever the text: the source `get_program` stores shows no
+hint marker `# paroxython:` any more — every hint comment is removed, with or without a space after
+the colon, empty or not, glued to the code or not (repaired finding F46: an empty hint comment at the
+end of the last line used to survive, the final trimming having eaten the space the regex of
+`remove_hints` required). -/
+theorem C12_source_no_marker (src : Str) (p : Program) (h : (getProgram O) src = .ok p) :
+    hasInfix m13 p.source = false :=
+  source_noMarker src p h
+
+/-- The inputs of the repaired findings F45 (a hint comment glued to the code and a hint alone on a
+line: used to be a `ValueError` "Malformed hint '#'") and F46 (an empty hint comment at the end of the
+last line: used to stay in the stored source). -/
+example : (getProgram asciiOracle) "x = 1#paroxython:a\n# paroxython: b\ny = 2\n".toList =
+    .ok ⟨"x = 1\ny = 2".toList, [("a".toList, [(1, 1)]), ("b".toList, [(1, 2)])], []⟩ := by rfl
+example : (getProgram asciiOracle) "x = 1\ny = 2 # paroxython:\n".toList =
+    .ok ⟨"x = 1\ny = 2".toList, [], []⟩ := by rfl
+example : (getProgram asciiOracle) "x = 1 #paroxython:\n#  Paroxython :   \ny = 2#paroxython:".toList =
+    .ok ⟨"x = 1\ny = 2".toList, [], []⟩ := by rfl
 
 /-- **C12 (shape of a schedule).** Whatever the text, a schedule returned by `get_program` is a
 dictionary: label names are distinct, and each label's list of spans is sorted. Together with the
